@@ -1,5 +1,6 @@
 import CantoVerif.Spec.Coinswap
 import CantoVerif.Proofs.CoinswapWF
+import CantoVerif.Spec.CoinswapExamples
 /-!
 # C08 — user-set limits, deadlines and quoted amounts are honoured exactly.
 
@@ -192,6 +193,14 @@ theorem sell_bound_tight {env : Env} {s : State} {dIn dOut : Denom} {aIn aOut so
     have : ¬ (bought + 1 ≤ bought) := by omega
     simp only [trade, Bool.false_eq_true, if_false, hpf, bind, Except.bind, ensure, hX, hY, decide_true, if_true, hp,
       this, decide_false]
+
+
+/-! ## non-vacuity: each kind of message succeeds on a concrete non-trivial state -/
+
+example : (step exEnv exState exSell).toBool = true := by decide +kernel
+example : (step exEnv exState exBuy).toBool = true := by decide +kernel
+example : (step exEnv exState exAdd).toBool = true := by decide +kernel
+example : (step exEnv exState exRemove).toBool = true := by decide +kernel
 
 end Coinswap
 end CV
